@@ -62,6 +62,7 @@ pub fn gen(seed: u64, tier: Tier) -> ScenarioSpec {
             spec.knobs.insert("resume".into(), 1);
         }
     }
+    spec.knobs.insert("prelude".into(), gen_prelude(&mut rng, &[1, 4, 5], 8));
     spec
 }
 
@@ -69,6 +70,7 @@ pub fn run(spec: &ScenarioSpec, ctx: &mut Ctx) -> Result<(), Violation> {
     let m = recorder::build(&spec.recorder);
     ctx.rep.sim_time_ns += m.sim_time_ns();
     shape_of_model(ctx, &m, spec);
+    prelude(spec.knob("prelude"), spec.seed, &m, ctx);
     ctx.shape("api", (spec.api == Api::Incremental) as u64);
     ctx.shape("special", spec.recorder.special_rate as u64);
     // one probe per gate actually exercised
